@@ -327,6 +327,33 @@ pub fn execute(case: &str) -> String {
                             }
                         }
                     }
+                    "ent" => {
+                        let v = unhex(it.next().unwrap()).unwrap();
+                        let ks = match String::from_utf8(k) {
+                            Ok(s) => s,
+                            Err(_) => return "bad-case".into(),
+                        };
+                        if enc == "B" {
+                            match m.entry_bin(ks.as_str()) {
+                                Err(_) => out.push("keyerr".to_string()),
+                                Ok(e) => {
+                                    let r = e.or_insert(MetadataValue::<Binary>::from_bytes(&v));
+                                    out.push(format!("entry:{}", hex(r.as_encoded_bytes())));
+                                }
+                            }
+                        } else {
+                            match m.entry(ks.as_str()) {
+                                Err(_) => out.push("keyerr".to_string()),
+                                Ok(e) => match MetadataValue::<Ascii>::try_from(&v[..]) {
+                                    Err(_) => out.push("valerr".to_string()),
+                                    Ok(val) => {
+                                        let r = e.or_insert(val);
+                                        out.push(format!("entry:{}", hex(r.as_encoded_bytes())));
+                                    }
+                                },
+                            }
+                        }
+                    }
                     "rm" => {
                         let ks = match String::from_utf8(k) {
                             Ok(s) => s,
@@ -609,6 +636,8 @@ pub fn generate(tier: &str, rng: &mut Rng) -> Vec<String> {
     }
     out.push(format!("acc {} {}", entries_tok(&[(b"foo".to_vec(), b"v".to_vec())]), hex(b"FOO")));
     out.push(format!("ops 2 ins B {} {} rm A {}", hex(b"foo-bin"), hex(&[0, 1, 2]), hex(b"foo-BIN")));
+    out.push(format!("ops 1 ent A {} {}", hex(b"foo-BIN"), hex(b"not base64!")));
+    out.push(format!("ops 1 ent B {} {}", hex(b"FOO-BIN"), hex(&[1, 2])));
 
     // ---- exhaustive small domains
     // header-name character table: every byte as a one-byte key, and inside a longer key
@@ -699,7 +728,15 @@ pub fn generate(tier: &str, rng: &mut Rng) -> Vec<String> {
             let b = rng.chance(1, 2);
             let k = if !used.is_empty() && rng.chance(1, 2) { used[rng.below(used.len() as u64) as usize].clone() } else { gen_typed_key(rng, b) };
             used.push(k.clone());
-            match rng.below(5) {
+            match rng.below(6) {
+                5 => {
+                    let stored: Vec<(Vec<u8>, Vec<u8>)> = used.iter().map(|k| (k.to_ascii_lowercase(), vec![])).collect();
+                    let mut ks = lookup_variants(rng, &stored);
+                    if std::str::from_utf8(&ks).is_err() {
+                        ks = k.clone();
+                    }
+                    toks.push(format!("ent {} {} {}", if b { "B" } else { "A" }, hex(&ks), hex(&if b { gen_bin_value(rng) } else { gen_value(rng) })));
+                }
                 0 => {
                     let stored: Vec<(Vec<u8>, Vec<u8>)> = used.iter().map(|k| (k.to_ascii_lowercase(), vec![])).collect();
                     let ks = lookup_variants(rng, &stored);
